@@ -34,6 +34,8 @@ type Step struct {
 	ThenClose bool `json:"then_close,omitempty"`
 	// close: go through TryClose (mq only), which closes exactly when both lanes are empty and is otherwise a no-op
 	Try bool `json:"try,omitempty"`
+	// burst: the adds of the burst go to the front (prior adds)
+	Prior bool `json:"prior,omitempty"`
 }
 
 type CaseCtl struct {
@@ -62,7 +64,8 @@ func GenCtl(t *rapid.T) CaseCtl {
 			c.Steps = append(c.Steps, genAdd(t, c.Kind))
 		case 3, 4:
 			st := genAdd(t, c.Kind)
-			if st.Op == "add" {
+			if st.Op == "add" || st.Op == "prior" {
+				st.Prior = st.Op == "prior"
 				st.Op, st.N = "burst", rapid.IntRange(1, 4).Draw(t, "burst")
 				st.ThenClose = rapid.IntRange(0, 2).Draw(t, "thenclose") == 0
 				if st.N == 1 && !st.ThenClose {
@@ -200,7 +203,7 @@ func ExecCtl(c CaseCtl) *vkit.Result {
 			if c.Kind != qadapt.KindMQ {
 				lane = qadapt.LaneReq
 			}
-			prior := st.Op == "prior" && !isSync
+			prior := (st.Op == "prior" || (st.Op == "burst" && st.Prior)) && !isSync
 			n := 1
 			if st.Op == "burst" {
 				n = st.N
@@ -216,6 +219,12 @@ func ExecCtl(c CaseCtl) *vkit.Result {
 				} else if m.waiting >= 2 {
 					res.Class("burst-with-two-or-more-parked")
 				}
+			}
+			if prior && st.Op == "burst" && n > 1 && m.waiting < n {
+				// prior adds go to the front: which of them the woken consumers find first is the scheduler's choice
+				// unless there is a parked consumer for every item
+				n = max(1, m.waiting)
+				res.Skip("prior-burst-cut-to-the-number-of-parked-consumers")
 			}
 			thenClose := st.Op == "burst" && st.ThenClose && !m.closed
 			splitClose := false
@@ -1018,6 +1027,10 @@ type CaseTie struct {
 	Consumers int    `json:"consumers"`
 	Anyway    []bool `json:"anyway"`
 	PreItems  int    `json:"pre_items"` // priq: items queued before the round (the racing Pop takes the last one)
+	// Racer: what races the consumers entering their pop: "" Close; "tryclose" (two-lane queue: TryClose on the empty
+	// queue closes it); "adds": one add per consumer (ordinary, prior and - two-lane queue - control adds in turn) and no
+	// close at all: every consumer must come back with an item
+	Racer string `json:"racer,omitempty"`
 }
 
 func GenTie(t *rapid.T) CaseTie {
@@ -1029,6 +1042,14 @@ func GenTie(t *rapid.T) CaseTie {
 		c.Anyway = append(c.Anyway, rapid.Bool().Draw(t, "anyway"))
 	}
 	c.PreItems = rapid.IntRange(1, 2).Draw(t, "pre")
+	if c.Kind != qadapt.KindPri {
+		c.Racer = rapid.SampledFrom([]string{"", "", "adds", "adds", "tryclose"}).Draw(t, "racer")
+		if c.Racer == "tryclose" && c.Kind != qadapt.KindMQ {
+			c.Racer = ""
+		} else if c.Kind == qadapt.KindMQ && c.Racer == "" && rapid.Bool().Draw(t, "mqtryclose") {
+			c.Racer = "tryclose"
+		}
+	}
 	return c
 }
 
@@ -1097,14 +1118,45 @@ func ExecTie(c CaseTie) *vkit.Result {
 				go func() { defer wg.Done(); <-start; _, _, _ = pop() }()
 			}
 			wg.Add(1)
-			go func() { defer wg.Done(); <-start; q.Close() }()
+			switch {
+			case c.Racer == "tryclose" && q.TryClose != nil:
+				go func() { defer wg.Done(); <-start; q.TryClose() }()
+			case c.Racer == "adds" && c.Kind != qadapt.KindSync:
+				go func() {
+					defer wg.Done()
+					<-start
+					for i := 0; i < c.Consumers; i++ {
+						switch {
+						case i%3 == 1:
+							q.AddPrior(qadapt.LaneReq, i)
+						case i%3 == 2 && c.Kind == qadapt.KindMQ:
+							q.Add(qadapt.LaneCtrl, i)
+						default:
+							q.Add(qadapt.LaneReq, i)
+						}
+					}
+				}()
+			case c.Racer == "adds":
+				go func() {
+					defer wg.Done()
+					<-start
+					for i := 0; i < c.Consumers; i++ {
+						q.Add(qadapt.LaneReq, i)
+					}
+				}()
+			default:
+				go func() { defer wg.Done(); <-start; q.Close() }()
+			}
 			close(start)
 			wg.Wait() // a consumer that misses the close parks forever: seen by the quiescence detector below
 		}
 	})
 	sched.MustQuiesce()
 	if !op.Done() {
-		return res.Failf("tie-close-missed", "%s: round %d: %d consumers entered their blocking pop while Close ran; Close has returned, yet somebody is parked forever", c.Kind, round, c.Consumers)
+		if c.Racer == "adds" {
+			return res.Failf("tie-add-missed", "%s: round %d: %d consumers entered their blocking pop while %d items were added (ordinary / prior / control adds); the adds have returned, yet a consumer is parked forever beside its item", c.Kind, round, c.Consumers, c.Consumers)
+		}
+		return res.Failf("tie-close-missed", "%s: round %d: %d consumers entered their blocking pop while Close ran (%s); it has returned, yet somebody is parked forever", c.Kind, round, c.Consumers, map[bool]string{true: "TryClose", false: "Close"}[c.Racer == "tryclose"])
 	}
 	if p := op.Panic(); p != nil {
 		return res.Failf("tie-panic", "%v", p)
@@ -1116,7 +1168,7 @@ func ExecTie(c CaseTie) *vkit.Result {
 	if c.Kind == qadapt.KindPri {
 		res.Class("priq-pop-vs-push")
 	} else {
-		res.Class("pop-entry-vs-close")
+		res.Class("pop-entry-vs-" + map[string]string{"": "close", "adds": "adds", "tryclose": "tryclose"}[c.Racer])
 	}
 	return res
 }
